@@ -182,9 +182,17 @@ def inherit(first: int, a: int, b: int, c: int) -> int:
         wp.join()
         wc.join()
         later = []
-        for _ in range(6):
-            t = threading.Thread(target=lambda: later.append(_serve(RA)))
+        gate = threading.Event()
+
+        def fresh():
+            gate.wait(2)
+            later.append(_serve(RA))
+
+        batch = [threading.Thread(target=fresh) for _ in range(6)]       # alive together: they take 6 different native ids,
+        for t in batch:                                                   # among them (very likely) those of the dead workers
             t.start()
+        gate.set()
+        for t in batch:
             t.join()
     if later != ["dflt"] * 6:
         note("threads started after the workers died were served by", later)
